@@ -15,6 +15,7 @@ import contextlib
 import io
 import os
 import random
+import subprocess
 
 from vlib import harness
 
@@ -67,8 +68,8 @@ class C02:
     tables = True
     rule = (
         "cases = (command-shaped Python template over names a,b,c / attribute / item forms, binding form per name out of 14 statement kinds + parameters of every kind + global, "
-        "scope depth in {module, function, class, nested function, lambda, comprehension}) run through Execer.parse/exec and through builtin exec; plus del-then-use programs, "
-        "atomicity programs (effect; broken line) and executable corpus statements with all names bound; distinct_nontrivial = distinct (template, binding kinds, scope) triples and distinct other programs"
+        "scope depth in {module, function, class, nested function, lambda, comprehension}) run through Execer.parse/exec and through builtin exec; plus del-then-use programs (name bound in the same scope, by an earlier input, at module level and deleted through `global`, in a nested block, function-local), "
+        "mixed programs (Python templates after handled failing / succeeding / dead commands, compared with CPython on the program without its command lines), atomicity programs (effect; broken line) and executable corpus statements with all names bound; distinct_nontrivial = distinct (template, binding kinds, scope) triples and distinct other programs"
     )
     assumptions = [
         "every name read is bound by construction at the point of use (straight-line binding statements precede the use in the same scope or an enclosing one); the reference semantics is CPython's exec on an equal namespace",
@@ -89,6 +90,8 @@ class C02:
             r.append("del-then-use programs never reached the spawn counter")
         if c.get("atomicity_programs", 0) < 100:
             r.append("atomicity programs missing")
+        if c.get("mixed_programs", 0) < 300:
+            r.append("mixed command / Python programs missing")
         for sc in ("module", "function", "class", "nested-function", "lambda", "comprehension", "corpus"):
             if c.get("scope_" + sc, 0) < 50:
                 r.append(f"scope {sc} under-exercised")
@@ -111,11 +114,19 @@ class C02:
         self.spawns = []
         spawns = self.spawns
 
+        real_run_subproc = specs.run_subproc
+        self.real_commands = False
+
         def fake_run_subproc(cmds, captured=False, envs=None, **kw):
             spawns.append([list(map(str, c)) if isinstance(c, (list, tuple)) else c for c in cmds])
+            if self.real_commands:
+                return real_run_subproc(cmds, captured=captured, envs=envs, **kw)
             return None
 
         specs.run_subproc = fake_run_subproc
+        # commands of the mixed programs: they touch nothing but their exit status
+        self.XSH.aliases["cfail"] = lambda args: 1
+        self.XSH.aliases["cok"] = lambda args: 0
 
     def base_ns(self):
         class _cm:
@@ -165,13 +176,21 @@ class C02:
             exc = type(e).__name__
         return self.snapshot(ns), buf.getvalue(), exc
 
-    def run_xonsh(self, src):
+    def run_xonsh(self, src, earlier_input=None):
         ns = self.base_ns()
         buf = io.StringIO()
         exc = None
         self.spawns.clear()
         try:
             with harness.alarm(20), contextlib.redirect_stdout(buf):
+                if earlier_input:
+                    # names bound by an earlier input of the same session (session globals); a failing command at that
+                    # earlier prompt was reported there and is history by now
+                    try:
+                        self.ex.exec(earlier_input, glbs=ns, locs=ns, mode="exec")
+                    except subprocess.CalledProcessError:
+                        pass
+                    self.spawns.clear()
                 self.ex.exec(src, glbs=ns, locs=ns, mode="exec")
         except harness.CaseTimeout:
             exc = "HANG"
@@ -357,7 +376,8 @@ class C02:
         elif kind == "del":
             rec.count("del_programs")
             rec.case(nontrivial=src)
-            xs = self.run_xonsh(src)
+            xs = self.run_xonsh(src, case.get("earlier_input"))
+            rec.count("del_where_" + case.get("where", "same-scope"))
             if xs[3]:
                 rec.count("del_programs_launched")
                 want = case["expect_cmd"]
@@ -365,6 +385,34 @@ class C02:
                     rec.violation("DEL/launched-command-differs", case, {"spawned": xs[3][:2], "expected_prefix": want})
             else:
                 rec.violation("DEL/name-deleted-but-line-not-launched", case, {"exception": xs[2]})
+        elif kind == "mixed":
+            # Python statements of a program that also runs commands keep exactly Python's meaning: same namespace, output
+            # and (no) exception as CPython gives for the program with its command lines taken out
+            rec.count("mixed_programs")
+            rec.count("mixed_" + case["shape"])
+            rec.case(nontrivial=(case["tmpl"], case["shape"], bool(case.get("earlier_input"))))
+            self.real_commands = True
+            self.XSH.env["XONSH_SUBPROC_RAISE_ERROR"] = True
+            try:
+                xs = self.run_xonsh(src, case.get("earlier_input"))
+            finally:
+                self.real_commands = False
+                self.XSH.env["XONSH_SUBPROC_RAISE_ERROR"] = False
+                from vlib.session import reset_jobs, settle
+
+                settle(2)
+                reset_jobs()
+            py = self.run_python(case["py_src"])
+            foreign = [c for c in xs[3] if not (c and isinstance(c[0], list) and c[0] and c[0][0] in ("cfail", "cok"))]
+            if foreign:
+                rec.violation("MIXED/python-statement-launched-as-command", case, {"spawned": foreign[:2]})
+            elif xs[2] != py[2]:
+                rec.violation("MIXED/python-statement-raises-differently-after-a-command/" + str(xs[2]), case, {"xonsh_exception": xs[2], "python_exception": py[2]})
+            elif xs[0] != py[0] or xs[1] != py[1]:
+                keys = sorted(k for k in set(xs[0]) | set(py[0]) if xs[0].get(k) != py[0].get(k))
+                rec.violation("MIXED/python-statement-computes-differently-after-a-command", case, {"differing": keys[:5], "xonsh": {k: xs[0].get(k) for k in keys[:5]}, "python": {k: py[0].get(k) for k in keys[:5]}})
+            else:
+                rec.count("ok")
         elif kind == "atomic":
             rec.count("atomicity_programs")
             rec.case(nontrivial=src)
@@ -436,9 +484,38 @@ class C02:
             self.run_case({"kind": "python", "src": src, "scope": "corpus"}, rec)
         for i in range(sh["n"]):
             r = rng.random()
-            if r < 0.72:
+            if r < 0.66:
                 src, tmpl, scope, kinds = self.build(rng)
                 case = {"kind": "python", "src": src, "tmpl": tmpl, "scope": scope, "kinds": kinds}
+            elif r < 0.72:
+                def bind(nm, val):
+                    # the statement-level walrus is a listed finding of its own (its directed programs stay in the python kind)
+                    while True:
+                        lines, k = bind_stmt(rng, nm, val)
+                        if k != "walrus":
+                            return lines
+
+                la, lb, lc = bind("a", rng.choice([0, 5])), bind("b", rng.choice([0, 3])), bind("c", 2)
+                binds = "\n".join(la + lb + lc) + "\n"
+                tmpl = rng.choice(["a and b", "a or b", "not a", "a and b or c", "a -b", "a | b", "a and (b or c)", "a < b", "a ,b"])
+                use = f"res = {tmpl}\n" if "," not in tmpl else f"res = ({tmpl})\n"
+                shape = rng.choice(["handled-failure-before", "handled-failure-before", "ok-command-before", "dead-command-before/if-false", "dead-command-before/uncalled-def", "handled-failure-inside-function", "command-after"])
+                earlier = rng.choice([None, None, "cfail earlier\n", "cok earlier\n"])
+                if shape == "handled-failure-before":
+                    cmd, pyc = "try:\n    cfail x\nexcept Exception:\n    log.append('handled')\n", "log.append('handled')\n"
+                elif shape == "ok-command-before":
+                    cmd, pyc = "cok x\n", ""
+                elif shape == "dead-command-before/if-false":
+                    cmd, pyc = "if False:\n    cok never\n", ""
+                elif shape == "dead-command-before/uncalled-def":
+                    cmd, pyc = "def _never():\n    cfail never\n", "def _never():\n    pass\n"
+                elif shape == "handled-failure-inside-function":
+                    cmd = "def _g():\n    try:\n        cfail y\n    except Exception:\n        log.append('handled')\n_g()\n"
+                    pyc = "def _g():\n    log.append('handled')\n_g()\n"
+                else:
+                    cmd, pyc = "", ""
+                tail = "cok z\n" if shape == "command-after" else ""
+                case = {"kind": "mixed", "src": binds + cmd + use + tail, "py_src": binds + pyc + use, "tmpl": tmpl, "shape": shape, "earlier_input": earlier}
             elif r < 0.86:
                 n = rng.choice(["a", "b"])
                 l, k = bind_stmt(rng, "a", 5)
@@ -447,8 +524,27 @@ class C02:
                 first = tmpl.split()[0]
                 pre = rng.choice(["", "if True:\n    ", "for _i in [1]:\n    "])
                 body = f"del {first}\n{tmpl}" if not pre else f"del {first}\n" + pre + tmpl
-                src = "\n".join(l + l2) + "\n" + body + "\n"
-                case = {"kind": "del", "src": src, "expect_cmd": [first], "binding": k}
+                binds = "\n".join(l + l2) + "\n"
+                # where the deleted name was bound relative to the `del`: the same scope, an earlier input of the session,
+                # the module scope (deleted inside a function through `global`), or a nested block of the same scope
+                where = rng.choice(["same-scope", "same-scope", "earlier-input", "global-deleted-in-function", "deleted-in-nested-block", "function-local"])
+                case = {"kind": "del", "expect_cmd": [first], "binding": k, "where": where}
+                if where == "same-scope":
+                    case["src"] = binds + body + "\n"
+                elif where == "earlier-input":
+                    case["earlier_input"] = binds
+                    case["src"] = body + "\n"
+                elif where == "global-deleted-in-function":
+                    case["src"] = binds + f"def _zap():\n    global {first}\n    del {first}\n_zap()\n" + (pre + tmpl if pre else tmpl) + "\n"
+                elif where == "deleted-in-nested-block":
+                    case["src"] = binds + f"if True:\n    for _j in [1]:\n        del {first}\n" + (pre + tmpl if pre else tmpl) + "\n"
+                else:
+                    inner = binds + body + "\n"
+                    if any(ln.startswith(("import ", "from ", "class ", "def ", "global ")) for ln in inner.splitlines()):
+                        case["where"] = "same-scope"
+                        case["src"] = inner
+                    else:
+                        case["src"] = "def _fn():\n" + "".join("    " + ln + "\n" for ln in inner.splitlines()) + "_fn()\n"
             else:
                 broken = rng.choice(BROKEN)
                 good = rng.choice(["log.append(1)", "log.append(1); x = 2", "echo_never_runs = 1\nlog.append(2)"])
